@@ -307,6 +307,40 @@ def check_spectrum_interp(run, drv, ncases, start=0):
                         run.violation("2D spectrum time interpolation is not piecewise linear", {})
                 except Exception as ex:
                     run.violation("2D spectrum interpolate raised", dict(error=repr(ex)))
+            # 2D spectrum in frequency: node values, fill value outside, and the variables without a frequency
+            # axis (position, depth; also where they are missing) pass through unchanged
+            from ocean_science_utilities.wavespectra.spectrum import FrequencyDirectionSpectrum
+            ds2 = s2.dataset.copy(deep=True)
+            npt = E.shape[0]
+            for nm in ("latitude", "longitude", "depth"):
+                v = np.array(ds2[nm].values, dtype=float).copy()
+                if npt >= 1 and rng.random() < 0.7:
+                    v[rng.randrange(npt)] = np.nan          # no position fix / unknown depth
+                ds2[nm] = (ds2[nm].dims, v)
+            s2n = FrequencyDirectionSpectrum(ds2)
+            f2 = s2n.frequency.values
+            keep = {nm: np.array(s2n.dataset[nm].values, dtype=float).copy() for nm in ("latitude", "longitude", "depth")}
+            fnew2 = np.concatenate([[f2[0] - 0.01], f2[:2], [(f2[0] + f2[1]) / 2, f2[-1] + 0.5]])
+            for fill in (0.0, 1.5):
+                run.case("spectrum2d_frequency", key=(case, fill))
+                try:
+                    o3 = s2n.interpolate_frequency(fnew2, extrapolation_value=fill)
+                except Exception as ex:
+                    run.violation("interpolate_frequency of a 2D spectrum raised", dict(error=repr(ex)))
+                    continue
+                g3 = np.asarray(o3.variance_density.values, dtype=float)
+                if not (np.all(g3[:, 0] == fill) and np.all(g3[:, -1] == fill) and np.allclose(g3[:, 1], E[:, 0], rtol=1e-12, atol=1e-15)
+                        and np.allclose(g3[:, 2], E[:, 1], rtol=1e-12, atol=1e-15)
+                        and np.allclose(g3[:, 3], 0.5 * (E[:, 0] + E[:, 1]), rtol=1e-12, atol=1e-15)):
+                    run.violation("interpolate_frequency of a 2D spectrum does not return node values / the fill value outside / the linear value between nodes",
+                                  dict(fill=fill))
+                for nm, v in keep.items():
+                    g = np.array(o3.dataset[nm].values, dtype=float)
+                    if g.shape != v.shape or not np.array_equal(g, v, equal_nan=True):
+                        run.violation("a variable without the interpolated coordinate does not pass through interpolate_frequency unchanged",
+                                      dict(variable=nm, before=v.tolist(), after=g.tolist(), fill=fill))
+                    if not np.array_equal(np.array(s2n.dataset[nm].values, dtype=float), v, equal_nan=True):
+                        run.violation("interpolate_frequency changed its operand", dict(variable=nm))
 
 
 # ------------------------------------------------------------------------------------------------
